@@ -185,7 +185,7 @@ PROPS["C04"]["kinds"] = ["conv", "c03", "c19", "c12", "c09", "reply"]
 
 PROPS["C11"] = {
     "kinds": ["c11"],
-    "rule": "c11: one MAIL or RCPT line against the real server (EHLO, [MAIL], the line, QUIT); the reply code and the backend callback are recorded. Generators: grammar-derived valid lines for every parameter and combination x extension flags, single-point mutations, lists of faulty parameters / paths, all strings up to length 4 (thorough 5) over the alphabet < > @ : \" \\ SP a = + ; . after FROM:/TO:, random octets, keyword case variants incl. U+017F/U+0131/U+212A. Tags: verdict of the reference grammar (valid/invalid/unspecified), verb, parameter kinds. Nothing is trivial.",
+    "rule": "c11: one MAIL or RCPT line against the real server (EHLO, [MAIL], the line, QUIT); the reply code and the backend callback are recorded. Generators: grammar-derived valid lines for every parameter and combination x extension flags, single-point mutations, lists of faulty parameters / paths, all strings up to length 4 (thorough 5) over the alphabet < > @ : \" \\ SP a = + ; . after FROM:/TO:, random octets, keyword case variants incl. U+017F/U+0131/U+212A (not esmtp-keywords: must be refused), SMTPUTF8/REQUIRETLS with a value and KEY= with an empty value (must be refused). Tags: verdict of the reference grammar (valid/invalid/unspecified), verb, parameter kinds. Nothing is trivial.",
     "trusted_base": ["reference grammar RefGrammar.v (written from RFC 5321/1870/3461/4954/6531/6533/7293/3339/8689)"],
     "assumptions": ["lines classified Unspecified by the reference grammar are not judged"],
 }
